@@ -61,7 +61,9 @@ class C18(Property):
                     env2 = [(a, b) for a, b in env if a != var]
                     # the occurrence goes at the level that declares it: prepend when declared at top level
                     top_named = [y for y in self.top_level_leaves(opts)]
-                    if x in top_named:
+                    # fallback_to_usage turns any failure on an EMPTY line into the usage text: adding the item to an
+                    # empty line changes that premise, not the variable's meaning -- no relation is claimed there
+                    if x in top_named and not (opts.get("fallback_to_usage") and not base):
                         cases.append(Case(gid + "e", opts, base, env=env2 + [(var, val)],
                                           unset=[e for e in all_env if e not in [a for a, _ in env2] and e != var] + UNDECLARED,
                                           tags={"role": "envset", "group": gid, "var": var, "val": val}))
@@ -124,12 +126,35 @@ class C18(Property):
 
 
     def known_class(self, cls, f):
-        if cls != "invalid_env_under_repetition" or f.kind != "violation" or f.case.opts is None:
+        if f.kind != "violation" or f.case.opts is None:
             return False
         t = f.case.tags
         if t.get("role") != "present":
             return False
         var = t["var"].decode()
+        if cls == "hidden_short":
+            # the variable's item is declared under hide() and stands on the line only as a `-Xvalue` / `-aX` cluster:
+            # the tokenizer does not know the hidden short name (C02-hidden-short), reads a plain word, and the item is
+            # absent as far as bpaf can tell -- so the variable is consulted although the user gave a value
+            hidden = set()
+            for x in gen.walk(f.case.opts):
+                if x["k"] == "hide":
+                    for y in gen.walk(x["p"]):
+                        if y["k"] in ("flag", "arg") and var in y["n"]["env"]:
+                            hidden.update(y["n"]["short"])
+            if not hidden:
+                return False
+            for a in f.case.argv:
+                if a.startswith(b"-") and not a.startswith(b"--") and len(a) > 2:
+                    try:
+                        txt = a[1:].decode("utf-8")
+                    except UnicodeDecodeError:
+                        continue
+                    if txt[1:2] != "=" and any(ch in hidden for ch in txt.split("=")[0]):
+                        return True
+            return False
+        if cls != "invalid_env_under_repetition":
+            return False
         # the variable's argument sits under a repeating wrapper: after the occurrences on the line are used up the
         # loop evaluates the argument once more, now reading the variable
         def under_rep(p, rep):
